@@ -58,6 +58,10 @@ pub fn new_env() -> Env {
     env.ledger().with_mut(|li| {
         li.min_persistent_entry_ttl = 6_000_000;
         li.max_entry_ttl = 6_312_000;
+        // a ledger position like a live network's, not the test host's zero: code that compares or divides
+        // sequence numbers and timestamps behaves differently at 0 (several seeded changes were invisible there)
+        li.sequence_number = 51_234_567;
+        li.timestamp = 1_750_000_000;
     });
     #[allow(deprecated)]
     env.budget().reset_unlimited();
